@@ -226,7 +226,7 @@ def options(draw, integrators=('Euler', 'RK4', 'implicit', 'implicitfast'), solv
 def models(draw, max_bodies=5, min_bodies=1, joint_types=JOINT_TYPES, geom_types=GEOM_TYPES, plane=None,
            contacts=True, actuators=True, tendons=True, equalities=True, sensors=False, sites=True, mocap=False,
            keyframes=False, opt=None, opt_kwargs=None, joint_kwargs=None, geom_kwargs=None, max_joints=2,
-           explicit_inertial=True, stateful_actuators=True, compiler=None, defaults=False, userdata=False,
+           explicit_inertial=True, stateful_actuators=True, compiler=None, defaults=False, userdata=False, history=False,
            spread=1.0, static_geoms=True, cameras=False, lights=False):
   """Generate a model. Returns GenModel(xml, info)."""
   labels = set()
@@ -473,6 +473,14 @@ def models(draw, max_bodies=5, min_bodies=1, joint_types=JOINT_TYPES, geom_types
           aa['actrange'] = fmt([-draw(num(0.1, 1, 1)), draw(num(0.1, 1, 1))])
         if draw(st.booleans()):
           aa['actearly'] = 'true'
+      if history and draw(st.integers(0, 2)) == 0:
+        # history buffer of the control input (nsample) with optional delay and interpolation order
+        aa['nsample'] = str(draw(st.integers(1, 4)))
+        if draw(st.booleans()):
+          aa['delay'] = fmt(draw(st.sampled_from([0.001, 0.003, 0.0075, 0.02])))
+        if draw(st.booleans()):
+          aa['interp'] = draw(st.sampled_from(['zoh', 'linear', 'cubic']))
+        labels.add('act:history')
       actx += '<%s%s/>' % (tag, _attrs(aa))
       anames.append('a%d' % k)
       labels.add('act:' + kind)
@@ -503,6 +511,22 @@ def models(draw, max_bodies=5, min_bodies=1, joint_types=JOINT_TYPES, geom_types
                 '<actuatorfrc actuator="%s"/>' % a_]
     cands += ['<clock/>']
     chosen = draw(st.lists(st.sampled_from(cands), min_size=1, max_size=8))
+    if history:
+      # sampled / delayed sensors: history buffer (nsample), sampling interval [period, phase], delay, interpolation
+      for ci in range(len(chosen)):
+        if draw(st.integers(0, 2)) == 0:
+          extra = ' nsample="%d"' % draw(st.integers(1, 4))
+          hk = draw(st.integers(0, 3))
+          if hk in (0, 1):
+            period = draw(st.sampled_from([0.003, 0.007, 0.01, 0.025]))
+            extra += (' interval="%s"' % fmt(period) if hk == 0 else
+                      ' interval="%s %s"' % (fmt(period), fmt(-period * draw(st.sampled_from([0.0, 0.25, 0.5])))))
+          if hk in (1, 2):
+            extra += ' delay="%s"' % fmt(draw(st.sampled_from([0.001, 0.004, 0.0075, 0.02])))
+          if draw(st.booleans()):
+            extra += ' interp="%s"' % draw(st.sampled_from(['zoh', 'linear', 'cubic']))
+          chosen[ci] = chosen[ci].replace('/>', extra + '/>')
+          labels.add('sensor:history')
     sensx = ''.join(chosen)
     labels.add('sensors')
 
@@ -560,7 +584,7 @@ def state_seed(draw):
   return draw(st.integers(0, 2 ** 31 - 1))
 
 
-def apply_state(lib, m, d, seed, vel_scale=1.0, pos_scale=1.0, ctrl=True, forces=True, act=True, mocap=True):
+def apply_state(lib, m, d, seed, vel_scale=1.0, pos_scale=1.0, ctrl=True, forces=True, act=True, mocap=True, mocap_nonunit=False):
   """Set a pseudo-random state derived from an integer seed (all randomness comes from Hypothesis via seed)."""
   rng = np.random.RandomState(seed)
   nq, nv = m.nq, m.nv
@@ -584,4 +608,7 @@ def apply_state(lib, m, d, seed, vel_scale=1.0, pos_scale=1.0, ctrl=True, forces
     d.mocap_pos[:] = d.mocap_pos + rng.uniform(-0.2, 0.2, (m.nmocap, 3))
     q = rng.normal(size=(m.nmocap, 4))
     d.mocap_quat[:] = q / np.linalg.norm(q, axis=1, keepdims=True)
+    if mocap_nonunit and rng.randint(2):
+      # a non-unit mocap_quat is accepted user input: mj_kinematics normalises a local copy and must leave the state alone
+      d.mocap_quat[:] = d.mocap_quat * rng.uniform(0.5, 2.0, (m.nmocap, 1))
   return rng
